@@ -201,6 +201,10 @@ pub fn run_c16(ctx: &mut Ctx) {
             emit(ctx, kind, 3, 1, &[4, 4, 4]);
             emit(ctx, kind, 4, 0, &[1, 2, 3, 4, 7, 1]);
         }
+        // a wide grapheme cluster as the last character(s) behind a full window (right context counted in bytes)
+        emit(ctx, 1, 16, 4, &[1, 1, 1, 1, 1, 1, 1, 1, 1, 1, 1, 1, 8]);
+        emit(ctx, 1, 44, 8, &[1, 1, 1, 1, 1, 1, 1, 1, 1, 1, 1, 1, 1, 1, 1, 1, 1, 1, 1, 1, 1, 1, 1, 1, 1, 1, 1, 1, 1, 1, 1, 1, 1, 1, 1, 1, 25, 1]);
+        emit(ctx, 1, 20, 5, &[2, 2, 2, 2, 2, 2, 2, 1, 11]);
         // "no limit" and other values at the top of the range (the arithmetic on max and context must not overflow)
         let m = u64::MAX;
         for kind in 0..2 {
@@ -241,11 +245,31 @@ pub fn run_c16(ctx: &mut Ctx) {
         let lens: Vec<u64> = (0..len)
             .map(|_| {
                 let r = ctx.rng.random_range(0..100);
-                if r < 40 { 1 } else if r < 60 { 2 } else if r < 75 { 3 } else if r < 88 { 4 } else if r < 91 { 8 } else if r < 93 { 11 } else { ctx.rng.random_range(5..=9) }
+                if r < 40 { 1 } else if r < 60 { 2 } else if r < 75 { 3 } else if r < 88 { 4 } else if r < 91 { 8 } else if r < 93 { 11 } else if r < 95 { 25 } else { ctx.rng.random_range(5..=9) }
             })
             .collect();
-        let max = ctx.rng.random_range(0..=12);
-        let c = ctx.rng.random_range(0..=5);
+        // mostly small limits; every fifth request larger ones (contexts of several characters, where "how many
+        // characters remain" and "how many bytes remain" differ by a lot for wide clusters)
+        let (max, c) = if i % 5 == 4 { (ctx.rng.random_range(8..=48), ctx.rng.random_range(0..=14)) } else { (ctx.rng.random_range(0..=12), ctx.rng.random_range(0..=5)) };
+        if i % 9 == 5 {
+            // a window that is exactly full, followed by a few wide clusters (fewer than ctx / 4 of them, more than
+            // ctx bytes): byte windows must count the right context in bytes
+            let c = ctx.rng.random_range(4..=12u64);
+            let max = 2 * c + ctx.rng.random_range(1..=30u64);
+            let mut lens: Vec<u64> = vec![];
+            let mut total = 0;
+            while total < max - c {
+                let l = [1u64, 1, 2, 3][ctx.rng.random_range(0..4)].min(max - c - total);
+                lens.push(l);
+                total += l;
+            }
+            for _ in 0..ctx.rng.random_range(1..=(c / 4).max(1)) {
+                lens.push([5u64, 7, 8, 11, 25][ctx.rng.random_range(0..5)]);
+            }
+            let k = ctx.rng.random_range(0..2);
+            emit(ctx, k, max, c, &lens);
+            continue;
+        }
         let kind = ctx.rng.random_range(0..10).min(2) % 3;
         let kind = if i % 10 == 9 { 2 } else { kind % 2 };
         emit(ctx, kind, max, c, &lens);
